@@ -126,6 +126,8 @@ def run(tier, replay=None):
         dl = os.path.join(d, "p.dl"); open(dl, "w").write(render.program(P, src_clauses=P["clauses"]))
         render.write_facts(P, cs[-1]["edb"], os.path.join(d, "facts"))
         o = sf.run_dl(dl, os.path.join(d, "facts"), os.path.join(d, "out"))
+        if o.kind == "timeout":
+            o = sf.run_dl(dl, os.path.join(d, "facts"), os.path.join(d, "out"), timeout=900)
         return i, o, None
     with cf.ThreadPoolExecutor(NCPU) as ex:
         for i, o, why in ex.map(probe, range(len(Ps))):
@@ -161,6 +163,8 @@ def run(tier, replay=None):
         if mode == "compile":
             exe = os.path.join(d0, "p.exe")
             rc, so, se = runcmd([build.SOUFFLE, "-o", exe, texts[q]], timeout=900)
+            if rc == -999:
+                return [(q, d0, None, "compiled", "souffle timeout (souffle -o, 15 min)")]
             if rc != 0 or not os.path.exists(exe):
                 return [(q, d0, None, "compiled", "compiling the component program failed rc=%s: %s" % (rc, se[-600:]))]
             outs = []
@@ -168,12 +172,16 @@ def run(tier, replay=None):
                 d = os.path.join(d0, "x%d" % kk)
                 render.write_facts(FP, cc["edb"], os.path.join(d, "facts")); os.makedirs(os.path.join(d, "out"), exist_ok=True)
                 rc, so, se = runcmd([exe, "-F", os.path.join(d, "facts"), "-D", os.path.join(d, "out")], timeout=60)
+                if rc == -999:      # an overloaded machine is not a defect of souffle: once more, patiently
+                    rc, so, se = runcmd([exe, "-F", os.path.join(d, "facts"), "-D", os.path.join(d, "out")], timeout=900)
                 o = sf.Outcome(); o.rc = rc; o.stdout = so; o.stderr = se; o.kind = sf.classify(rc, se)
                 outs.append((q, d, cc, "compiled", judge(FP, cc, o, os.path.join(d, "out"))))
             return outs
         d = os.path.join(d0, "e%d" % k)
         render.write_facts(FP, c["edb"], os.path.join(d, "facts"))
         o = sf.run_dl(texts[q], os.path.join(d, "facts"), os.path.join(d, "out"))
+        if o.kind == "timeout":
+            o = sf.run_dl(texts[q], os.path.join(d, "facts"), os.path.join(d, "out"), timeout=900)
         return [(q, d, c, "interpreter", judge(FP, c, o, os.path.join(d, "out")))]
     def judge(FP, c, o, out):
         if o.kind == "ok":
@@ -197,6 +205,8 @@ def run(tier, replay=None):
             continue
         if evalcore.known_crash(res, "C16", bad):
             continue
+        if bad.startswith("souffle timeout"):      # 0.05 s of work not finished after 60 s and again after 900 s
+            res.infra_errors.append("%s run of %s did not finish within 15 min (not judged): %s" % (how, CP["id"], d)); continue
         rp = os.path.join(d, "replay.json")
         json.dump({"property": "C16", "program": CP["id"], "shape": CP["shape"], "notes": CP["notes"], "dl": texts[q],
                    "mode": how, "args": [], "edb": c and c["edb"], "expected": c and c["model"], "flat": flatP(q),
